@@ -628,6 +628,10 @@ fn count(hay: &[u8], needle: &[u8]) -> usize {
 }
 
 const HEADERS: &[&str] = &["syntax error: ", "typecheck error: ", "compile error: ", "git conflict error: "];
+fn uses_std_names(_files: &BTreeMap<String, String>) -> bool {
+    false
+}
+
 fn header_lines(s: &str) -> usize {
     s.lines().filter(|l| HEADERS.iter().any(|h| l.starts_with(h))).count()
 }
@@ -927,6 +931,29 @@ impl C20 {
                         streams(&r)
                     ),
                 );
+            }
+            // independent of what the library reports: a file that carries one of the planted *syntax* errors (the forms
+            // below are never legal) must be named in the output - also when another file is broken as well
+            const SYNTAX_MARKS: &[&str] = &[" := 1 +\n", " := 1 1\n", "ret )\n", " := 2 2 2\n", "<<<<<<< HEAD\n"];
+            if !case.no_std || !uses_std_names(&case.files) {
+                for (path, text) in case.files.iter() {
+                    let t = format!("{}\n", text);
+                    // only files that are loaded: the main file, and the aux file while main still says `use aux`
+                    // (a conflict marker in the main file ends the compilation before its imports are read)
+                    let loaded = path.ends_with("/main.sy")
+                        || case.files.get("/p/main.sy").map(|m| m.lines().any(|l| l.trim() == "use aux") && !m.contains("<<<<<<<")).unwrap_or(false);
+                    if loaded && SYNTAX_MARKS.iter().any(|m| t.contains(m)) {
+                        let base = path.rsplit('/').next().unwrap_or(path);
+                        if !both.contains(base) {
+                            return viol(
+                                "C20/errors/file-with-syntax-error-not-reported",
+                                case,
+                                format!("`{}`: {} contains a syntax error but no printed error names that file\n{}", cmdline, path, streams(&r)),
+                            );
+                        }
+                        labels.add("planted-syntax-error-file-reported");
+                    }
+                }
             }
             labels.add(format!("errors-on:{}", stream_name));
             if in_order(stream, &rendered) {
